@@ -60,15 +60,16 @@ SKIPPED_NOPRED: list = []
 
 
 def model(repo, paired):
-    key = (id(repo), paired)
-    if key not in _models:
-        _models[key] = analyse_builder(repo, paired)
-    return _models[key]
+    key = ("builder-model", paired)
+    if key not in repo.cache:
+        repo.cache[key] = analyse_builder(repo, paired)
+    return repo.cache[key]
 
 
-def _step_kind(repo, cls_name, _cache={}):
+def _step_kind(repo, cls_name):
     """'sink' (consumes on every path), 'filter' (consumes on some), 'writer' (never consumes)"""
-    k = (id(repo), cls_name)
+    _cache = repo.cache
+    k = ("step-kind", cls_name)
     if k in _cache:
         return _cache[k]
     cls = repo.cls(cls_name)
